@@ -1,0 +1,119 @@
+//go:build verif
+
+package consensus
+
+// Contracts for the deductive checks in /verif (read by /verif/govc; comment-only, no code).
+
+//@ import sm github.com/tendermint/tendermint/state
+//@ import proxy github.com/tendermint/tendermint/proxy
+//@ import types github.com/tendermint/tendermint/types
+//@ import log github.com/tendermint/tendermint/libs/log
+
+// ---- C05: handshake - the application is brought to the height of the block store by executing exactly the missing
+// heights, in order, each once. The typestate ghosts (abciPhase, appH, mockActive, ...) are those of
+// state/zz_verif_contracts.go.
+
+//@ extern log.Logger.Info
+//@   assigns nothing
+//@ extern log.Logger.Error
+//@   assigns nothing
+// ASSUMED: the block store hands out the block of the height asked for; stores do not touch the typestate.
+//@ extern sm.BlockStore.Height
+//@   pure
+//@   assigns nothing
+//@ extern sm.BlockStore.Base
+//@   assigns nothing
+//@ extern sm.BlockStore.LoadBlock
+//@   assigns nothing
+//@   ensures asked: result != nil && result.Header.Height == arg0
+//@ extern sm.BlockStore.LoadBlockMeta
+//@   assigns nothing
+//@   ensures some: result != nil
+//@ extern sm.Store.Save
+//@   assigns nothing
+//@ extern sm.Store.LoadLastABCIResponse
+//@   assigns nothing
+//@ extern proxy.AppConns.Consensus
+//@   pure
+//@   assigns nothing
+//@ extern proxy.AppConns.Query
+//@   pure
+//@   assigns nothing
+// ASSUMED: the application reports the height it has committed.
+//@ extern proxy.AppConnQuery.InfoSync
+//@   assigns nothing
+//@   ensures truthful: result1 == nil ==> result0.LastBlockHeight == appH
+
+//@ import merkle github.com/tendermint/tendermint/crypto/merkle
+//@ extern types.NewValidatorSet
+//@   assigns nothing
+//@ extern types.NewValidator
+//@   assigns nothing
+//@ extern types.tm2pb.ValidatorUpdates
+//@   assigns nothing
+//@ extern types.tm2pb.ConsensusParams
+//@   assigns nothing
+//@ extern types.pb2tm.ValidatorUpdates
+//@   assigns nothing
+//@ extern types.ValidatorSet.CopyIncrementProposerPriority
+//@   assigns nothing
+//@ extern types.UpdateConsensusParams
+//@   assigns nothing
+//@ extern merkle.HashFromByteSlices
+//@   assigns nothing
+//@ extern sm.NewBlockExecutor
+//@   assigns nothing
+//@ extern sm.BlockExecutor.SetEventBus
+//@   assigns nothing
+
+// The connection that replays stored responses: from its creation on, the connection being driven is the mock.
+//@ func newMockProxyApp
+//@   trusted
+//@   assigns mockActive
+//@   sets mockActive = true when true
+//@ func assertAppHashEqualsOneFromState
+//@   assigns nothing
+//@ func assertAppHashEqualsOneFromBlock
+//@   assigns nothing
+
+// Applying the stored block of a height (through ApplyBlock): the application must be at the state's height (or the
+// connection is the mock); afterwards state and application are at that height.
+//@ func Handshaker.replayBlock
+//@   requires between: abciPhase == 0
+//@   requires sync: mockActive || appH == state.LastBlockHeight
+//@   ensures done: result1 == nil ==> (abciPhase == 0 && result0.LastBlockHeight == height && (mockActive || appH == height))
+
+// Replaying from the application's height to the store's height: every height in between is executed and committed on
+// the application exactly once and in order; the application ends at the store's height.
+//@ func Handshaker.replayBlocks
+//@   requires between: abciPhase == 0 && !mockActive && appH == appBlockHeight && appBlockHeight >= 0 && appBlockHeight < storeBlockHeight
+//@   requires init: state.InitialHeight >= 1 && h.genDoc.InitialHeight == state.InitialHeight
+//@   requires state: state.LastBlockHeight == ite(mutateState, storeBlockHeight - 1, storeBlockHeight) && (mutateState ==> appBlockHeight < storeBlockHeight - 1) && storeBlockHeight >= state.InitialHeight &&
+//@     | (state.LastBlockHeight == 0 || state.LastBlockHeight >= state.InitialHeight)
+//@   ensures caught: result1 == nil ==> (abciPhase == 0 && appH == storeBlockHeight)
+//@   loop 1 invariant pos: firstBlock <= i && i <= finalBlock + 1 && abciPhase == 0 && !mockActive
+//@   loop 1 invariant app: (i == firstBlock && appH == appBlockHeight) || (i > firstBlock && appH == i - 1)
+
+// The handshake decision: InitChain only at genesis; then, by cases on store / state / application heights, either
+// nothing to do, or replay; on success the application is at the store's height (or the store is empty).
+// Crash consistency of the commit pipeline as seen by the handshake: whatever crash point was hit, the block store is
+// empty, level with the saved state, or exactly one block ahead of it (the block after an empty state is the one at
+// the initial height) - this is the relation SaveBlock / state save establish (C18 and ApplyBlock's order) and is a
+// PRECONDITION here; under it none of the handshake's own consistency panics is reachable (checks nopanic), i.e.
+// every such restart is handled.
+//@ func Handshaker.ReplayBlocks
+//@   checks nopanic
+//@   requires crashpoint: imethod(h.store, Height) == 0 || imethod(h.store, Height) == state.LastBlockHeight ||
+//@     | imethod(h.store, Height) == ite(state.LastBlockHeight == 0, state.InitialHeight, state.LastBlockHeight + 1)
+//@   requires appsane: appBlockHeight == 0 || appBlockHeight >= state.InitialHeight
+//@   requires between: abciPhase == 0 && !mockActive && appH == appBlockHeight && appBlockHeight >= 0
+//@   requires init: state.InitialHeight >= 1 && h.genDoc.InitialHeight == state.InitialHeight
+//@   requires store: (imethod(h.store, Height) == 0 || imethod(h.store, Height) >= state.InitialHeight) && (state.LastBlockHeight == 0 || state.LastBlockHeight >= state.InitialHeight)
+//@   ensures synced: result1 == nil ==> (abciPhase == 0 && (storeBlockHeight == 0 || appH == storeBlockHeight))
+//@   loop 1 invariant t: abciPhase == 0 && appH == appBlockHeight
+
+//@ func Handshaker.Handshake
+//@   requires between: abciPhase == 0 && !mockActive
+//@   requires init: h.initialState.InitialHeight >= 1 && h.genDoc.InitialHeight == h.initialState.InitialHeight
+//@   requires store: (imethod(h.store, Height) == 0 || imethod(h.store, Height) >= h.initialState.InitialHeight) && (h.initialState.LastBlockHeight == 0 || h.initialState.LastBlockHeight >= h.initialState.InitialHeight)
+//@   ensures ready: result == nil ==> abciPhase == 0
